@@ -43,3 +43,166 @@ pub fn as_str(buf: &[u8], len: usize) -> &str {
   // validate themselves
   unsafe { std::str::from_utf8_unchecked(&buf[..len]) }
 }
+
+use ast_grep_core::{AstGrep, StrDoc};
+
+/// "parse" `src` into the given tree (the mock parser returns queued trees)
+pub fn mk_grep(src: &str, tree: TreeData) -> AstGrep<StrDoc<HL>> {
+  mock_ts::push_tree(tree);
+  AstGrep::new(src, HL('$'))
+}
+
+/// a one-node tree whose root spans [start, end) of `src`
+pub fn single_node(src: &[u8], start: u32, end: u32) -> TreeData {
+  let mut t = TreeData::empty();
+  t.n = 1;
+  t.nodes[0].start = start;
+  t.nodes[0].end = end;
+  let (r, c) = mock_ts::point_of(src, start as usize);
+  t.nodes[0].srow = r;
+  t.nodes[0].scol = c;
+  let (r, c) = mock_ts::point_of(src, end as usize);
+  t.nodes[0].erow = r;
+  t.nodes[0].ecol = c;
+  t
+}
+
+/// symbolic UTF-8 text of at most NCH characters drawn from {a, é (2 B), 😀 (4 B), \n};
+/// returns (bytes, byte length, number of chars)
+#[cfg(kani)]
+pub fn any_utf8<const NCH: usize, const NB: usize>() -> ([u8; NB], usize, usize) {
+  let mut buf = [0u8; NB];
+  let nch: usize = kani::any();
+  kani::assume(nch <= NCH);
+  let mut len = 0;
+  let mut i = 0;
+  while i < NCH {
+    if i < nch {
+      let c: u8 = kani::any();
+      kani::assume(c < 4);
+      if c == 0 {
+        buf[len] = b'a';
+        len += 1;
+      } else if c == 1 {
+        buf[len] = b'\n';
+        len += 1;
+      } else if c == 2 {
+        buf[len] = 0xC3;
+        buf[len + 1] = 0xA9;
+        len += 2;
+      } else {
+        buf[len] = 0xF0;
+        buf[len + 1] = 0x9F;
+        buf[len + 2] = 0x98;
+        buf[len + 3] = 0x80;
+        len += 4;
+      }
+    }
+    i += 1;
+  }
+  (buf, len, nch)
+}
+
+pub fn is_boundary(b: &[u8], len: usize, off: usize) -> bool {
+  off == len || (off < len && (b[off] & 0xC0) != 0x80)
+}
+
+/// A symbolic tree: shape (pre-order parent vector), labels and layout are `kani::any()`
+/// constrained only by tree-sitter's structural contract.
+pub struct SymTree {
+  pub data: TreeData,
+  pub n: usize,
+  pub parent: [u8; MAXN],
+  /// total source length
+  pub total: usize,
+}
+
+pub const SRC_X: &str = "xxxxxxxxxxxxxxxxxxxxxxxxxxxxxxxxxxxxxxxx";
+
+#[cfg(kani)]
+pub fn any_kind() -> u16 {
+  let k: u16 = kani::any();
+  kani::assume((k >= 1 && k <= 8) || k == mock_ts::ERROR_KIND);
+  k
+}
+
+/// `nmax` <= MAXN nodes; leaf widths in [min_width, 2]; gaps in {0,1}
+#[cfg(kani)]
+pub fn any_tree(nmax: usize, min_width: u8) -> SymTree {
+  let n: usize = kani::any();
+  kani::assume(n >= 1 && n <= nmax);
+  let mut parent = [0u8; MAXN];
+  let mut i = 1;
+  while i < MAXN {
+    if i < nmax {
+      let p: u8 = kani::any();
+      kani::assume((p as usize) < i);
+      parent[i] = p;
+    }
+    i += 1;
+  }
+  kani::assume(TreeData::is_preorder(n, &parent));
+  let mut data = TreeData::from_parents(n, &parent);
+  let mut width = [1u8; MAXN];
+  let mut gap = [0u8; MAXN];
+  let mut i = 0;
+  while i < MAXN {
+    if i < nmax {
+      let w: u8 = kani::any();
+      kani::assume(w >= min_width && w <= 2);
+      width[i] = w;
+      let g: u8 = kani::any();
+      kani::assume(g <= 1);
+      gap[i] = g;
+      data.nodes[i].kind = any_kind();
+      data.nodes[i].named = kani::any();
+    }
+    i += 1;
+  }
+  let total = data.layout(&width, &gap) as usize;
+  data.fix_named_counts();
+  SymTree { data, n, parent, total }
+}
+
+/// `last[u]` = largest pre-order index inside the subtree of `u`; `depth[u]`
+pub fn subtree_info(n: usize, parent: &[u8; MAXN]) -> ([usize; MAXN], [usize; MAXN]) {
+  let mut last = [0usize; MAXN];
+  let mut depth = [0usize; MAXN];
+  let mut i = 0;
+  while i < MAXN {
+    last[i] = i;
+    i += 1;
+  }
+  let mut i = 1;
+  while i < MAXN {
+    if i < n {
+      depth[i] = depth[parent[i] as usize] + 1;
+    }
+    i += 1;
+  }
+  let mut i = MAXN;
+  while i > 1 {
+    i -= 1;
+    if i < n {
+      let p = parent[i] as usize;
+      if last[i] > last[p] {
+        last[p] = last[i];
+      }
+    }
+  }
+  (last, depth)
+}
+
+/// the ast-grep `Node` for arena index `idx` (through `Root::adopt`)
+pub fn node_at<'r>(g: &'r AstGrep<StrDoc<HL>>, idx: usize) -> ast_grep_core::Node<'r, StrDoc<HL>> {
+  let ts_root = g.root().get_ts_node();
+  g.inner.adopt(mock_ts::Node {
+    tree: ts_root.tree,
+    idx: idx as u8,
+  })
+}
+
+/// arena index of an ast-grep node
+pub fn idx_of(n: &ast_grep_core::Node<StrDoc<HL>>) -> usize {
+  n.node_id() - 1
+}
